@@ -224,6 +224,20 @@ pub fn cells(tier: Tier) -> Vec<CellPlan> {
         v.push(plan(c, 2, 0.5));
     }
 
+    // a mutate message whose application fails on the client (the game's deserialization
+    // function refuses a value) is still a received message: it is acknowledged and the server
+    // goes quiet. One operation per tick on a perfect link, so that no other entity shares the
+    // refused message; only the rest oracle applies.
+    let mut c = mutation_cell("refused-mutation");
+    c.cfg.with_f = true;
+    c.init = vec![Op::Spawn(0, cells::M_A), Op::Spawn(1, cells::M_A), Op::InsF(0)];
+    c.alphabet = vec![Op::Nop, Op::MutPoison(0), Op::Mut(1, TA), Op::Mut(0, TA)];
+    c.tick_choice = false;
+    c.env = Env::perfect();
+    c.oracles = Oracles { c11: true, ..Default::default() };
+    c.rounds = if q { 3 } else { 4 };
+    v.push(plan(c, 0, 0.5));
+
     // acknowledgement timeout shorter than the round trip: only "never skipped" is asserted
     let mut c = mutation_cell("timeout");
     c.cfg.timeout_ms = 20;
